@@ -67,6 +67,9 @@ def install(E):
     torch.entries["contiguous_format"] = Token("torch.contiguous_format")
     torch.entries["__version__"] = "2.14.0"
     torch.entries["no_grad"] = Builtin("no_grad", lambda E: Token("cm:no_grad"))
+    torch.entries["enable_grad"] = Builtin("enable_grad", lambda E: Token("cm:enable_grad"))
+    torch.entries["inference_mode"] = Builtin("inference_mode", lambda E, mode=True: Token("cm:no_grad") if mode else Token("cm:noop"))
+    torch.entries["is_grad_enabled"] = Builtin("is_grad_enabled", lambda E: E.ps.get("grad_enabled", True))
     for name, fn in TORCH_FUNCS.items():
         torch.entries[name] = Builtin("torch." + name, fn)
     TENSOR_CLS.ns["_make_wrapper_subclass"] = Builtin("_make_wrapper_subclass", make_wrapper_subclass)
